@@ -17,7 +17,10 @@ def handle (fields : List String) : String :=
         | none =>
           match handleScope fields with
           | some r => r
-          | none => "bad-op"
+          | none =>
+            match handleV1 fields with
+            | some r => r
+            | none => "bad-op"
 
 partial def loop (h : IO.FS.Stream) (out : IO.FS.Stream) : IO Unit := do
   let line ← h.getLine
